@@ -694,4 +694,82 @@ theorem evalTree_rel (n : Nat) : ∀ (t : Tree K) (v : Val K), evalTree t = .ok 
     obtain ⟨b, e2, e3⟩ := bind_ok e'
     exact divV_rel (evalTree_rel n l a e1 hd.1) (evalTree_rel n r b e2 hd.2) e3
 
+/-! ### reading the leaves first, building the filter afterwards -/
+
+/-- the expression with every Stream leaf replaced by the number it delivers at time `n`: an
+expression over `z`, numbers and `+ - * /` only (what C04 / C05 are about) -/
+def Tree.freeze (n : Nat) : Tree K → Tree K
+  | .z k => .z k
+  | .c v => .c v
+  | .s items => .c (items.getD n 0)
+  | .neg t => .neg (Tree.freeze n t)
+  | .add l r => .add (Tree.freeze n l) (Tree.freeze n r)
+  | .sub l r => .sub (Tree.freeze n l) (Tree.freeze n r)
+  | .mul l r => .mul (Tree.freeze n l) (Tree.freeze n r)
+  | .div l r => .div (Tree.freeze n l) (Tree.freeze n r)
+
+theorem Tree.at_freeze (n m : Nat) (t : Tree K) : Tree.at m (Tree.freeze n t) = Tree.at n t := by
+  induction t with
+  | z k => rfl
+  | c v => rfl
+  | s items => rfl
+  | neg t ih => simp only [Tree.freeze, Tree.at, ih]
+  | add l r ihl ihr => simp only [Tree.freeze, Tree.at, ihl, ihr]
+  | sub l r ihl ihr => simp only [Tree.freeze, Tree.at, ihl, ihr]
+  | mul l r ihl ihr => simp only [Tree.freeze, Tree.at, ihl, ihr]
+  | div l r ihl ihr => simp only [Tree.freeze, Tree.at, ihl, ihr]
+
+theorem Tree.definedAt_freeze (n m : Nat) (t : Tree K) : Tree.definedAt m (Tree.freeze n t) := by
+  induction t with
+  | z k => trivial
+  | c v => trivial
+  | s items => trivial
+  | neg t ih => exact ih
+  | add l r ihl ihr => exact ⟨ihl, ihr⟩
+  | sub l r ihl ihr => exact ⟨ihl, ihr⟩
+  | mul l r ihl ihr => exact ⟨ihl, ihr⟩
+  | div l r ihl ihr => exact ⟨ihl, ihr⟩
+
+/-- building the filter from Streams and reading it at time `n` = reading the Streams at time `n`
+and building the constant-coefficient filter: the same fraction -/
+theorem evalTree_freeze (n m : Nat) (t : Tree K) (f f' : ZFT K) (e : evalTree t = .ok (.filt f))
+    (e' : evalTree (Tree.freeze n t) = .ok (.filt f')) (hd : Tree.definedAt n t) :
+    ∃ N D, Tree.at n t = .frac N D ∧ f.numAt n * D = N * f.denAt n
+      ∧ f'.numAt m * D = N * f'.denAt m := by
+  have h1 := evalTree_rel n t _ e hd
+  have h2 := evalTree_rel m (Tree.freeze n t) _ e' (Tree.definedAt_freeze n m t)
+  rw [Tree.at_freeze] at h2
+  cases hx : Tree.at n t with
+  | num v => rw [hx] at h1; exact h1.elim
+  | frac N D =>
+    rw [hx] at h1 h2
+    exact ⟨N, D, rfl, h1.2.2, h2.2.2⟩
+
+/-- every Stream leaf delivers the same value for (at least) the first `N` items -/
+def Tree.constUpTo (N : Nat) : Tree K → Prop
+  | .z _ => True
+  | .c _ => True
+  | .s items => N ≤ items.length ∧ ∀ n, n < N → items.getD n 0 = items.getD 0 0
+  | .neg t => Tree.constUpTo N t
+  | .add l r => Tree.constUpTo N l ∧ Tree.constUpTo N r
+  | .sub l r => Tree.constUpTo N l ∧ Tree.constUpTo N r
+  | .mul l r => Tree.constUpTo N l ∧ Tree.constUpTo N r
+  | .div l r => Tree.constUpTo N l ∧ Tree.constUpTo N r
+
+theorem Tree.constUpTo_spec {N : Nat} {t : Tree K} (h : Tree.constUpTo N t) {n : Nat} (hn : n < N) :
+    Tree.definedAt n t ∧ Tree.freeze n t = Tree.freeze 0 t := by
+  induction t with
+  | z k => exact ⟨trivial, rfl⟩
+  | c v => exact ⟨trivial, rfl⟩
+  | s items => exact ⟨Nat.lt_of_lt_of_le hn h.1, by simp only [Tree.freeze, h.2 n hn]⟩
+  | neg t ih => exact ⟨(ih h).1, by simp only [Tree.freeze, (ih h).2]⟩
+  | add l r ihl ihr =>
+    exact ⟨⟨(ihl h.1).1, (ihr h.2).1⟩, by simp only [Tree.freeze, (ihl h.1).2, (ihr h.2).2]⟩
+  | sub l r ihl ihr =>
+    exact ⟨⟨(ihl h.1).1, (ihr h.2).1⟩, by simp only [Tree.freeze, (ihl h.1).2, (ihr h.2).2]⟩
+  | mul l r ihl ihr =>
+    exact ⟨⟨(ihl h.1).1, (ihr h.2).1⟩, by simp only [Tree.freeze, (ihl h.1).2, (ihr h.2).2]⟩
+  | div l r ihl ihr =>
+    exact ⟨⟨(ihl h.1).1, (ihr h.2).1⟩, by simp only [Tree.freeze, (ihl h.1).2, (ihr h.2).2]⟩
+
 end ALV.C06
